@@ -111,9 +111,14 @@ def gen_daqmx_spec(rng, max_segments=4, max_channels=5, wide_p=0.06, wide_digita
                     # 'same as before' refers to the index it had when it last carried data
                     L['index'] = 'none'
                 elif restate or c['path'] not in stated:
+                    scalers = c['scalers']
+                    if c['path'] in stated and rng.random() < 0.5:
+                        # the index is stated again with the same lengths, widths, scale ids and types but the scalers sit
+                        # elsewhere in the rows (the task was set up again with its channels in another order)
+                        scalers = _relocated(rng, c, widths)
                     stated.add(c['path'])
                     L.update({'index': 'full', 'type': 'daqmx', 'count': cnt,
-                              'daqmx': {'kind': c['kind'], 'scalers': c['scalers'], 'widths': list(widths)}})
+                              'daqmx': {'kind': c['kind'], 'scalers': scalers, 'widths': list(widths)}})
                     if k == 0 or rng.random() < 0.3:
                         nscales = max(s['id'] for s in c['scalers']) + 1
                         L['props'] = [['NI_Number_Of_Scales', 'u32', nscales], ['NI_Scaling_Status', 'str', 'unscaled']]
@@ -153,6 +158,19 @@ def gen_daqmx_spec(rng, max_segments=4, max_channels=5, wide_p=0.06, wide_digita
         seg['buffers'] = [[rng.randbytes(r * wd) for (r, wd) in dims] for _ in range(seg['chunks'])]
         seg.pop('_rows', None)
     return spec
+
+
+def _relocated(rng, c, widths):
+    out = []
+    for sc in c['scalers']:
+        size = fmt.size_of(sc['type'])
+        wd = widths[sc['buffer']]
+        if c['kind'] == 'digital':
+            off = rng.randint(0, (wd - size) * 8 + 7)
+        else:
+            off = rng.randint(0, wd - size)
+        out.append(dict(sc, offset=off))
+    return out
 
 
 def _strip(spec, fill):
